@@ -30,9 +30,16 @@ def shapes(k, lo=0):
     return out
 
 
+_SCRIPT_OF = {}  # leaf index -> script id (set per case; default: every leaf has its own script)
+
+
+def sid(i):
+    return _SCRIPT_OF.get(i, i)
+
+
 def leaf_script_bytes(i):
     """P2PK-style tapscript with a fake 32-byte key: <32 bytes> OP_CHECKSIG"""
-    return b"\x20" + bytes([i + 1]) * 32 + b"\xac"
+    return b"\x20" + bytes([sid(i) + 1]) * 32 + b"\xac"
 
 
 def ref_hash(node, vers):
@@ -92,7 +99,7 @@ def build_lib(node, vers):
 
     def rec(nd):
         if isinstance(nd, int):
-            lf = TapLeaf(Script([bytes([nd + 1]) * 32, 0xAC]), vers[nd])
+            lf = TapLeaf(Script([bytes([sid(nd) + 1]) * 32, 0xAC]), vers[nd])
             leafobjs[nd] = lf
             return lf
         return TapBranch(rec(nd[0]), rec(nd[1]))
@@ -111,6 +118,9 @@ def check_tree(res, case, c, toy, engine):
     from buidl.script import Script
 
     shape, d, vers = case["shape"], int(case["d"]), case["vers"]
+    _SCRIPT_OF.clear()
+    for i, sc in enumerate(case.get("scripts") or []):
+        _SCRIPT_OF[i] = sc
     vc = {"engine": engine, "case": case}
     if toy:
         vc["toy"] = list(toy)
@@ -178,13 +188,30 @@ def check_tree(res, case, c, toy, engine):
         if isinstance(back, Rejected) or attempt(back.serialize) != exp_cb:
             res.violation(f"C12/{engine}/control-block-roundtrip", vc, repr(back), exp_cb, "control block does not parse back identically")
             continue
-        script = Script([bytes([leaf + 1]) * 32, 0xAC])
+        script = Script([bytes([sid(leaf) + 1]) * 32, 0xAC])
         assert script.raw_serialize() == leaf_script_bytes(leaf)
         ek = attempt(back.external_pubkey, script)
         if pt(ek) != Q or back.parity != par or back.tapleaf_version != vers[leaf]:
             res.violation(f"C12/{engine}/control-block-recompute", vc, (pt(ek), back.parity), (Q, par), "parsed control block does not recompute the output key and parity")
             continue
         res.ok("control block==ref & recomputes", nontrivial=("cb", repr(shape), d, leaf))
+    # the SAME tree object used with other internal keys afterwards (state kept on the tree between calls)
+    for d2 in case.get("also_keys", []):
+        d2 = int(d2)
+        P2 = c.mulg(d2)
+        out2 = ref_output(c, P2[0], exp_root, toy)
+        if out2 is None:
+            continue
+        Q2, par2, _ = out2
+        internal2 = pecc.S256Point(P2[0], P2[1])
+        for leaf in lv:
+            exp_cb = bytes([vers[leaf] | par2]) + ec.b32(P2[0]) + b"".join(ref_path(shape, leaf, vers))
+            cb = attempt(root_obj.control_block, internal2, leafobjs[leaf])
+            got_cb = None if isinstance(cb, Rejected) or cb is None else attempt(cb.serialize)
+            if got_cb != exp_cb:
+                res.violation(f"C12/{engine}/control-block-on-reused-tree", vc, got_cb, exp_cb, f"control block of leaf {leaf} for a second internal key on the same tree object differs from BIP341 (parity {par} then {par2})")
+                return
+        res.ok(f"reused tree object, second key (parities {par}->{par2})", nontrivial=("reuse", repr(shape), d, d2))
 
 
 def verifier_accepts(cb_bytes, script_items, Q, par, ver):
@@ -245,6 +272,14 @@ def gen_real_tree(tier, seed):
             if k <= 3:
                 vers = [0xC2 if i % 2 else 0xC0 for i in range(k)]
                 cases.append({"shape": sh, "d": str(keys[si % 2]), "vers": vers})
+            if 2 <= k <= 4:
+                # the same script committed under two leaf versions (first and last leaf share script 0)
+                vers = [0xC0] * (k - 1) + [0xC2]
+                cases.append({"shape": sh, "d": str(keys[si % 2]), "vers": vers, "scripts": [0] + list(range(1, k - 1)) + [0]})
+    # reuse of one tree object with further internal keys (walked until both output-key parities occurred)
+    for c_ in cases:
+        if len(leaves_of(c_["shape"])) <= 3:
+            c_["also_keys"] = [str(filler_int(seed, "c12also", j, 1, N - 1)) for j in range(3)]
     return cases
 
 
@@ -336,7 +371,12 @@ def gen_toy_tree(toy):
         for d in range(1, toy[1]):
             for k in range(1, kmax + 1):
                 for sh in shapes(k):
-                    cases.append({"toy": list(toy), "shape": sh, "d": str(d), "vers": [0xC0] * k})
+                    case = {"toy": list(toy), "shape": sh, "d": str(d), "vers": [0xC0] * k}
+                    if k <= 2:
+                        case["also_keys"] = [str((d + j) % (toy[1] - 1) + 1) for j in (1, 2, 3, 4)]
+                    cases.append(case)
+                    if k >= 2:
+                        cases.append({"toy": list(toy), "shape": sh, "d": str(d), "vers": [0xC0] * (k - 1) + [0xC2], "scripts": [0] + list(range(1, k - 1)) + [0]})
         return cases
 
     return g
